@@ -51,8 +51,9 @@ def tls(ctx):
         if isinstance(node, ast.Name) and node.id == "_backend" and isinstance(node.ctx, ast.Load):
             p = parent(node)
             ok = isinstance(p, ast.Call) and call_name(p) in ("getattr", "setattr") and p.args and p.args[0] is node and len(p.args) >= 2 and const_value(p.args[1]) == "config"
+            ok = ok or (isinstance(p, ast.Attribute) and p.value is node and p.attr == "config")
             n += 1
-            ctx.check(ok, node, "access through %s(_backend, 'config', ...)" % (call_name(p) if isinstance(p, ast.Call) else "?"), "the thread-local is used in another way: %s" % unparse(p or node))
+            ctx.check(ok, node, "access to the `config` slot of the thread-local only", "the thread-local is used in another way: %s" % unparse(p or node))
         if isinstance(node, ast.Name) and node.id == "_backend" and isinstance(node.ctx, ast.Store) and enclosing_stmt(node) not in binds:
             ctx.bad(node, "_backend is re-bound")
         if isinstance(node, ast.Global) and "_backend" in node.names:
@@ -82,14 +83,14 @@ def save_restore(ctx):
         v = a.value
         ctx.check(isinstance(v, ast.Call) and call_name(v) == "getattr" and dotted(v.args[0]) == "_backend" and const_value(v.args[1]) == "config" and len(v.args) == 3 and dotted(v.args[2]) == "default_parallel_config",
                   a, "previous configuration = getattr(_backend, 'config', default_parallel_config)")
-    sets = [c for c in calls_in(init) if call_name(c) == "setattr" and dotted(c.args[0]) == "_backend"]
+    sets = [a for a in nodes_of_type(init, ast.Assign) if "_backend.config" in stores_to(a)]
     if not sets:
         ctx.bad(init, "parallel_config.__init__ no longer installs the new configuration in the thread-local", key=PAR + "::parallel_config.__init__::install")
         return
     for c in sets:
         ctx.check(g.every_path_to(g.nodes_of(c), g.nodes_of_all(reads)), c, "the previous configuration is read before the new one is installed",
                   "the new configuration is installed before the previous one was saved: exit restores the wrong settings")
-        ctx.check(len(c.args) == 3 and dotted(c.args[2]) == "self.parallel_config", c, "what is installed is self.parallel_config")
+        ctx.check(dotted(c.value) == "self.parallel_config", c, "what is installed is self.parallel_config")
         ctx.check(not g.path_exists(g.nodes_of(c), g.nodes_of_all(reads)), c, "the saved configuration is not overwritten after the installation",
                   "old_parallel_config is (re)read after the new configuration was installed: exit restores the wrong settings")
     ex = F(ctx, "parallel_config.__exit__")
@@ -101,8 +102,8 @@ def save_restore(ctx):
         ctx.check(r.value is None or is_const(r.value, None) or is_const(r.value, False), r, "__exit__ does not swallow exceptions")
     ur = F(ctx, "parallel_config.unregister")
     gu = cfg_of(ur)
-    st = [c for c in calls_in(ur) if call_name(c) == "setattr" and dotted(c.args[0]) == "_backend"]
-    ctx.check(bool(st) and gu.every_path_from([gu.entry], gu.nodes_of_all(st)) and all(len(c.args) == 3 and const_value(c.args[1]) == "config" and dotted(c.args[2]) == "self.old_parallel_config" for c in st),
+    st = [a for a in nodes_of_type(ur, ast.Assign) if "_backend.config" in stores_to(a)]
+    ctx.check(bool(st) and gu.every_path_from([gu.entry], gu.nodes_of_all(st)) and all(dotted(c.value) == "self.old_parallel_config" for c in st),
               st[0] if st else ur, "unregister stores the saved configuration back, unconditionally", "unregister does not unconditionally restore the saved configuration")
     sub = ctx.repo.cls(PAR, "parallel_backend")
     ov = [s.name for s in sub.body if isinstance(s, ast.FunctionDef) and s.name in ("__exit__", "unregister")]
